@@ -1043,6 +1043,34 @@ LEGACY_MAP = {
 }
 
 
+# the transforms of the pinned legacy readers (confirmed by reading; □ = the value read)
+LEGACY_SHAPES = {
+    ("composeinfo.Compose.deserialize_0_3", "id", "id"): "□",
+    ("composeinfo.Compose.deserialize_0_3", "label", "label"): "(□ or None)",
+    ("composeinfo.Compose.deserialize_0_3", "type", "type"): "□",
+    ("composeinfo.Compose.deserialize_0_3", "final", "final"): "bool(□)",
+    ("composeinfo.Release.deserialize_0_3", "name", "name"): "□",
+    ("composeinfo.Release.deserialize_0_3", "version", "version"): "□",
+    ("composeinfo.Release.deserialize_0_3", "short", "short"): "□",
+    ("composeinfo.Release.deserialize_0_3", "type", "type"): "□.lower()",
+    ("composeinfo.Release.deserialize_0_3", "is_layered", "is_layered"): "bool(□)",
+    ("treeinfo.Media.deserialize_0_0", "discnum", "discnum"): "getint(□)",
+    ("treeinfo.Media.deserialize_0_0", "totaldiscs", "totaldiscs"): "getint(□)",
+    ("treeinfo.Release.deserialize_0_0", "name", "family"): "□",
+    ("treeinfo.Release.deserialize_0_0", "version", "version"): "□",
+    ("treeinfo.Release.deserialize_0_3", "name", "name"): "□",
+    ("treeinfo.Release.deserialize_0_3", "version", "version"): "□",
+    ("treeinfo.Release.deserialize_0_3", "short", "short"): "□",
+    ("treeinfo.Release.deserialize_0_3", "is_layered", "is_layered"): "getboolean(□)",
+    ("treeinfo.Tree.deserialize_0_0", "arch", "arch"): "□",
+    ("treeinfo.Tree.deserialize_0_0", "build_timestamp", "timestamp"): "int(getfloat(□))",
+    ("treeinfo.Variant.deserialize_0_3", "id", "id"): "□",
+    ("treeinfo.Variant.deserialize_0_3", "uid", "uid"): "□",
+    ("treeinfo.Variant.deserialize_0_3", "name", "name"): "□",
+    ("treeinfo.Variant.deserialize_0_3", "type", "type"): "□",
+}
+
+
 def _legacy_table(model, q):
     mod, cls, name = q.split(".")
     f = model.own_method("%s.%s" % (mod, cls), name)
@@ -1099,6 +1127,33 @@ def r_legacy_map(model, rep):
             rep.ob("R-LEGACY-MAP", "%s:%s" % (q, attr), ok, site=cx.site(f.node),
                    msg="" if ok else "legacy reader fills self.%s from %s, documented mapping: %s" % (
                        attr, sorted(table.get(attr, [])) or "nothing", sorted(want.get(attr, [])) or "nothing"))
+    # the transform a legacy reader applies to a key it shares with the current-version reader: the confirmed one of the pinned
+    # tree, or whatever its sibling applies today (the two are implementations of one mapping)
+    from .schema import rshape, _const_key
+    V = current_version(model)
+    n = 0
+    for q in sorted(LEGACY_MAP):
+        mod, cls, name = q.split(".")
+        f = model.own_method("%s.%s" % (mod, cls), name)
+        cur = facts.reader_reads(model, model.own_method("%s.%s" % (mod, cls), "deserialize"), version=V)
+        for r in facts.reader_reads(model, f, inline=False):
+            for s_ in r.sources:
+                k = _const_key(s_[0][-1]) if s_[0] else None
+                if k is None or len(s_) < 4:
+                    continue
+                shape = rshape(r.value, [s_])
+                mates = set(rshape(c.value, [cs]) for c in cur if c.attr == r.attr for cs in c.sources
+                            if cs[0] and _const_key(cs[0][-1]) == k and len(cs) > 3)
+                pinned = LEGACY_SHAPES.get((q, r.attr, k))
+                if pinned is None and not mates:
+                    continue
+                n += 1
+                ok = shape == pinned or shape in mates
+                rep.ob("R-LEGACY-MAP", "%s:%s:transform" % (q, r.attr), ok, site="%s:%s" % (f.module.rel(), r.ev.lineno),
+                       msg="" if ok else "legacy reader turns %r into self.%s as %s; the confirmed mapping is %s%s" % (
+                           k, r.attr, shape, pinned, (" and the current-version reader applies %s" % sorted(mates)) if mates else ""))
+    if n < 18:
+        raise AnalysisError("vacuity guard: R-LEGACY-MAP compared %d legacy transforms (floor 18)" % n)
     # images <= 1.0: subvariant default "", format default "iso"
     f = model.own_method("images.Image", "deserialize")
     cx = facts.fctx(model, f)
